@@ -235,6 +235,7 @@ func verifH_C31_attempts() {
 
 // A URL the validator rejects is never fetched, and the refusal does not leak its secrets.
 //
+//verif:ints bv
 //verif:stub (*net/http.Client).Get = verifC31Get
 //verif:stub time.Now = verifFixedNow
 //verif:bound location URL = "http" or "https" + "://" + user info of 2 ARBITRARY letters + "@h.example/p?" + query of 2 ARBITRARY letters, both taint-tracked into the returned error text
